@@ -18,6 +18,12 @@ class VSuper(Value):
         self.cls = cls
 
 
+def mentions(t, v):
+    if z3.eq(t, v):
+        return True
+    return any(mentions(c, v) for c in t.children())
+
+
 def has_yield(funcnode):
     for n in ast.walk(funcnode):
         if isinstance(n, (ast.Yield, ast.YieldFrom)):
@@ -49,12 +55,33 @@ class CallMixin:
             if nm == 'old':
                 return self.eval_old(node.args[0])
             if nm == 'implies':
-                a = self.ev(node.args[0])
-                if not self.is_true(a):
+                ta = self.truth(self.ev(node.args[0]))
+                if isinstance(ta, bool):
+                    return self.vbool(self.truth(self.ev(node.args[1]))) if ta else VBool(True)
+                sv = self.speculate(ta, node.args[1])
+                if sv is not None:
+                    tb = self.truth(sv)
+                    return VBool(z3.Implies(ta, z3.BoolVal(tb) if isinstance(tb, bool) else tb))
+                if not self.branch(ta):
                     return VBool(True)
                 return self.vbool(self.truth(self.ev(node.args[1])))
             if nm in ('forall', 'exists'):
                 return self.eval_quant(nm, node)
+            if nm == 'inre':
+                from .regex import compile_re
+                subj = self.res(self.ev(node.args[0]))
+                pat = ast.literal_eval(node.args[1])
+                fl = ast.literal_eval(node.args[2]) if len(node.args) > 2 else 0
+                import re as _re
+                cre = compile_re(pat, _re.IGNORECASE if fl else 0)
+                return VBool(z3.InRe(subj.t, cre.language('fullmatch')))
+            if nm == 'litval':
+                a = self.res(self.ev(node.args[0]))
+                return VInt(z3.Function('litval', z3.StringSort(), z3.IntSort())(a.t))
+            if nm == 'str2int':
+                a = self.res(self.ev(node.args[0]))
+                b = self.res(self.ev(node.args[1]))
+                return VInt(models.str2int(a.t, b.t))
             if nm == 'same_except':
                 return self.spec_same_except(node)
             if nm == 'fresh':
@@ -183,6 +210,17 @@ class CallMixin:
         if c is not None and c != 'inline' and not is_top_entry:
             return self.apply_contract(c, fi, args, kwargs, node)
         if any(f.func is fi for f in self.frames):
+            if tc is not None and fi.key == tc.key and tc.decreases and tc.returns is not None:
+                # recursive call of the function under contract: the measure must decrease
+                top = self.frames[0]
+                env = self.bind_args(fi, args, kwargs, node)
+                self.eval_defaults(fi, env)
+                m0 = self.eval_in_env(tc.decreases, top.old[0], top.old[1])
+                m1 = self.eval_in_env(tc.decreases, env, self.st.heap)
+                a0, a1 = self.flat(m0, 'int'), self.flat(m1, 'int')
+                self.emit(f'{tc.key}::terminates@{anchor(node)}', 'terminates', z3.And(a1 >= 0, a1 < a0),
+                          {'expr': f'decreases {tc.decreases}'})
+                return self.apply_contract(tc, fi, args, kwargs, node)
             self.limit(f'recursive call of {fi.qualname} without a contract', node)
         if len(self.frames) > self.MAX_INLINE_DEPTH:
             self.limit('inline depth exceeded', node)
@@ -301,6 +339,15 @@ class CallMixin:
                               f'raises {self.exc_class(pr.exc)} ({pr.site})')
         finally:
             self.spec_mode -= 1
+
+    def eval_in_env(self, expr, env, heap):
+        fr = self.frame
+        saved_env, saved_heap = fr.env, self.st.heap
+        fr.env, self.st.heap = dict(env), dict(heap)
+        try:
+            return self.res(self.eval_spec(expr))
+        finally:
+            fr.env, self.st.heap = saved_env, saved_heap
 
     def spec_truth(self, expr, old=False):
         v = self.eval_spec(expr, old)
@@ -435,10 +482,21 @@ class CallMixin:
         env[var] = bval
         self.no_fork = getattr(self, 'no_fork', 0) + 1
         npc = len(self.st.pc)
+        self.st.pc.append(rng)      # the body is evaluated for an index inside the range
         try:
-            body = self.truth(self.ev(lam.body))
+            try:
+                body = self.truth(self.ev(lam.body))
+            except PathEnd:
+                # empty range under the current path condition: the body is irrelevant
+                body = (which == 'forall')
         finally:
             self.no_fork -= 1
+            # drop the range assumption; definitional facts about the bound variable
+            # added meanwhile are guarded by the range
+            extra = self.st.pc[npc + 1:]
+            del self.st.pc[npc:]
+            for e_ in extra:
+                self.st.pc.append(z3.ForAll([bv], z3.Implies(rng, e_)) if mentions(e_, bv) else e_)
             if saved is None:
                 env.pop(var, None)
             else:
@@ -456,7 +514,12 @@ class CallMixin:
             trues = [i for i, c in enumerate(simp) if z3.is_true(c)]
             if trues:
                 return trues[0]
-            self.limit('a quantifier body needs a case split')
+            feas = [i for i, c in enumerate(simp) if not z3.is_false(c) and self.feasible(c)]
+            if len(feas) == 1:
+                return feas[0]
+            if not feas:
+                raise PathEnd()
+            self.limit('a case split is needed where none is allowed (quantifier body / speculative evaluation)')
         return Core.choose(self, conds, labels)
 
     # ---------------------------------------------------------------- top level
@@ -528,7 +591,7 @@ class CallMixin:
                 pr.entry = fr.old
                 pr.excl = {}
                 for oname, expr in (getattr(self, 'known_excl', None) or {}).items():
-                    if oname.startswith(contract.key + '::'):
+                    if oname.startswith(contract.key):
                         self.no_fork += 1
                         try:
                             t = self.spec_truth(expr)
@@ -548,7 +611,7 @@ class CallMixin:
                 env['result'] = result
                 pr.outcome = 'return'
                 for nm, e in contract.ensures:
-                    self.check_spec(e, f'{contract.key}::{nm}', 'post')
+                    self.check_spec(e, f'{contract.oname}::{nm}', 'post')
             except PyRaise as ex:
                 cls = self.exc_class(ex.exc)
                 pr.outcome = f'raise {cls}'
@@ -558,17 +621,17 @@ class CallMixin:
                         allowed = k
                         break
                 if allowed is None:
-                    self.emit(f'{contract.key}::raises:{cls}@{ex.site.split("::", 2)[-1]}', 'raises',
+                    self.emit(f'{contract.oname}::raises:{cls}@{ex.site.split("::", 2)[-1]}', 'raises',
                               z3.BoolVal(False), {'exception': cls, 'site': ex.site})
                 else:
                     r = contract.raises[allowed]
                     env['exc'] = ex.exc
                     if r.when:
                         t = self.spec_truth(r.when, old=True)
-                        self.emit(f'{contract.key}::raises-when:{allowed}', 'raises-when', t,
+                        self.emit(f'{contract.oname}::raises-when:{allowed}', 'raises-when', t,
                                   {'expr': r.when, 'site': ex.site})
                     for nm, e in r.post:
-                        self.check_spec(e, f'{contract.key}::exc-{allowed}:{nm}', 'exc-post')
+                        self.check_spec(e, f'{contract.oname}::exc-{allowed}:{nm}', 'exc-post')
         except PathEnd:
             pr.outcome = pr.outcome or 'cut'
         finally:
